@@ -81,6 +81,12 @@ def learn_prune_traces(rep, tier, seed):
             Xt, Xv = Xt.astype(np.int64), Xv.astype(np.int64)
         I = H.Interner()
         met = rng.choice(["euclidean", "log_squared_euclidean", "manhattan"])
+        if i % 7 == 3 and i < nsmall:
+            # histogram-like samples (counts with exact zeros) under the EPSILON-shifted ratio metrics: what is conserved are the caller's
+            # samples bit for bit, however often training evaluated a metric on them
+            Xt = r.poisson(0.8, size=(nt, 4)).astype(float) + 2.0 * (yt[:, None] == np.arange(4)[None, :])
+            Xv = r.poisson(0.8, size=(nv, 4)).astype(float) + 2.0 * (yv[:, None] == np.arange(4)[None, :])
+            met = ("chi_squared", "canberra", "bray_curtis", "clark")[(i // 7) % 4]
         kind = "learn" if (i % 2 == 0 or i >= nsmall) else "prune"
         iters = rng.randrange(1, 6) if i < nsmall else rng.randrange(4, 9)
         m = SupervisedOPF(distance=met)
